@@ -500,6 +500,12 @@ func (fr *Frame) safe(kind string, reach, goal string, pos token.Pos) {
 		return
 	}
 	vc := fr.vc
+	if vc.noSafety {
+		// contract without safety obligations: absence of panics is assumed here
+		// (and says so in the evidence); only the explicit clauses are checked
+		vc.assume(sImp(reach, goal))
+		return
+	}
 	root := fr.oblFn()
 	base := fmt.Sprintf("safe:%s:%s", root, kind)
 	vc.eng.safeOrd[base]++
